@@ -538,8 +538,34 @@ func ruleGRDalias(w *World, r *Report) {
 
 // ---------- SIB-same ----------
 
+// ruleSIBnumconv: toFloat64Ok decides "is this metadata value a number" for the B-tree indexer, the removal path and
+// the unchanged-value shortcut. It must accept numeric dynamic types only: a string that merely looks numeric is indexed
+// as a string, so treating it as equal to the number sends an update down the "value unchanged" shortcut and the entry
+// never moves between the string index and the numeric one.
+func ruleSIBnumconv(w *World, r *Report) {
+	r.Doc("SIB-numconv", "toFloat64Ok, the one numeric-conversion helper of the metadata indexes, has type-switch arms for numeric basic types only", 1)
+	fi := w.Func("pkg/core", "toFloat64Ok")
+	if fi == nil {
+		r.Und("SIB-numconv", "anchor:toFloat64Ok", "", "anchor lost")
+		return
+	}
+	arms, _, pos, ok := typeSwitchArms(fi, "")
+	if !ok {
+		r.Und("SIB-numconv", "toFloat64Ok:type-switch", w.Pos(fi.Decl.Pos()), "toFloat64Ok no longer decides by a type switch (shape not recognised)")
+		return
+	}
+	var bad []string
+	numeric := map[string]bool{"float64": true, "float32": true, "int": true, "int8": true, "int16": true, "int32": true, "int64": true, "uint": true, "uint8": true, "uint16": true, "uint32": true, "uint64": true, "encoding/json.Number": false}
+	for _, a := range arms {
+		if !numeric[a] {
+			bad = append(bad, a)
+		}
+	}
+	r.Cond(len(bad) == 0, "SIB-numconv", "toFloat64Ok:numeric-arms-only", w.Pos(pos), "accepts {"+strings.Join(arms, ", ")+"}", "toFloat64Ok also converts {"+strings.Join(bad, ", ")+"}: a value of that type is treated as equal to the number it spells, so an update that changes a field between string and number takes the 'value unchanged' shortcut — the entry stays in the old secondary index and live range / != filters answer from the old type until a restart rebuilds the indexes")
+}
+
 func ruleSIBsame(w *World, r *Report) {
-	r.Doc("SIB-same", "the 'value unchanged' shortcut of the metadata indexers compares type-sensitively (numeric equality / reflect.DeepEqual), never through a string rendering that conflates \"10\" with 10", 2)
+	r.Doc("SIB-same", "the 'value unchanged' shortcut of the metadata indexers compares type-sensitively (numeric equality / reflect.DeepEqual), never through a string rendering that conflates \"10\" with 10", 1)
 	fi := w.Func("pkg/core", "isSameAnyValue")
 	if fi == nil {
 		r.Und("SIB-same", "anchor:isSameAnyValue", "", "anchor lost: the unchanged-value shortcut")
